@@ -106,7 +106,17 @@ static int run_overload(int which, const uint8_t *exact, size_t n, const std::ve
             binson_parser p;
             memset(&p, 0, sizeof p); memset(st, 0, sizeof st);
             p.state = st; p.max_depth = 10;
-            binson_parser_init(&p, exact, n);        /* result deliberately ignored: the overload resets and checks */
+            bool iok = binson_parser_init(&p, exact, n);        /* result deliberately ignored: the overload resets and checks */
+            static unsigned hist;
+            if (iok && (++hist % 3) == 0) {
+                /* the caller peeked into the document first and abandoned the walk somewhere deep: deserialize(parser*) resets */
+                bool b = binson_parser_go_into_object(&p);
+                for (int i = 0; b && i < 2 + (int)(hist % 5); i++) {
+                    if (!binson_parser_next(&p)) break;
+                    binson_type ty = binson_parser_get_type(&p);
+                    if (ty == BINSON_TYPE_OBJECT) binson_parser_go_into_object(&p); else if (ty == BINSON_TYPE_ARRAY) binson_parser_go_into_array(&p);
+                }
+            }
             out.deserialize(&p);
         }
         return OUT_RETURNED;
